@@ -266,6 +266,30 @@ def check_case(case, ctx):
                 elif kind == "tree":
                     prof.tree.children.append(Tree("option", [Token("OPTION", mod[1]), Tree("string", [Token("STRING", '"' + mod[2] + '"')])]))
                     stmts.append({"path": (), "kw": [mod[1]], "args": [mod[2]], "vals": [mod[2].encode()], "rule": "value"})
+                elif kind == "nested":
+                    # modify inside an existing block, no top-level change: append an option to the last dns-beacon/stage/... block
+                    target = next((t for t in reversed(prof.tree.children) if isinstance(t, Tree) and t.data in ("dns_beacon", "stage", "post_ex", "process_inject")), None)
+                    if target is None:
+                        prof.set_config_block("dns_beacon", c2p.DnsBeaconBlock(dns_idle="8.8.8.8"))
+                        stmts.append({"path": ("dns-beacon",), "kw": ["dns_idle"], "args": ["8.8.8.8"], "vals": [b"8.8.8.8"], "rule": "x"})
+                        prof.as_dict()
+                        target = prof.tree.children[-1]
+                    kwmap = {"dns_beacon": ("dns-beacon", "dns_ttl"), "stage": ("stage", "obfuscate"), "post_ex": ("post-ex", "pipename"), "process_inject": ("process-inject", "min_alloc")}
+                    blk, kw = kwmap[str(target.data)]
+                    target.children.append(Tree(kw, [Tree("string", [Token("STRING", '"' + mod[1] + '"')])]))
+                    # source order: the new statement belongs to that block, i.e. after the block's existing statements
+                    idx = max((i for i, st in enumerate(stmts) if st["path"] and st["path"][0] == blk), default=len(stmts) - 1)
+                    # only exact when the target is the last block of that kind; keep it simple: rebuild expectation by position
+                    stmts.insert(idx + 1, {"path": (blk,), "kw": [kw], "args": [mod[1]], "vals": [mod[1].encode()], "rule": "x"})
+                elif kind == "replace":
+                    # replace the value of the first global option in place
+                    opt = next((t for t in prof.tree.children if isinstance(t, Tree) and t.data == "option"), None)
+                    if opt is not None:
+                        opt.children[1].children[0] = Token("STRING", '"' + mod[1] + '"')
+                        name = str(opt.children[0])
+                        first = next(st for st in stmts if st["path"] == () and st["kw"] == [name])
+                        first["args"] = [mod[1]]
+                        first["vals"] = [mod[1].encode()]
                 elif kind == "transform":
                     gb = c2p.HttpGetBlock()
                     gb.set_config_block("client", c2p.HttpOptionsBlock(metadata=c2p.DataTransformBlock(steps=["base64", ("prepend", mod[1]), ("header", "Cookie")])))
@@ -368,7 +392,11 @@ def run_shard(shard, ctx):
                     mods.append(("set_option", rng.choice(LANG["OPTION"]), _val(rng), rng.choice([1, 1, 2])))
                 elif r < 0.6:
                     mods.append(("tree", rng.choice(LANG["OPTION"]), _val(rng), rng.choice([1, 2])))
-                elif r < 0.8:
+                elif r < 0.7:
+                    mods.append(("nested", _val(rng), None, rng.choice([1, 2])))
+                elif r < 0.78:
+                    mods.append(("replace", _val(rng), None, rng.choice([1, 2])))
+                elif r < 0.88:
                     mods.append(("block", "dns_beacon", [(rng.choice(["dns_idle", "maxdns", "beacon", "dns_ttl"]), _val(rng)) for _ in range(rng.randrange(1, 4))], rng.choice([1, 2])))
                 else:
                     mods.append(("transform", _val(rng), None, rng.choice([1, 2])))
